@@ -19,6 +19,7 @@ type leaseCut struct {
 	steppedAt int64
 	probed    bool
 	cancelled bool
+	epoch     int64 // healEpoch when the cut took effect
 	term      uint64
 	voters    map[string]bool // voters of the leader's latest configuration when the cut took effect (filled lazily)
 }
@@ -100,7 +101,7 @@ func (r *Runner) execMacro(a Action) {
 			}
 		}
 		r.lastFaultMs = w.Now()
-		r.leaseCuts = append(r.leaseCuts, &leaseCut{in: L, t0: w.Now(), lease: L.Conf.LeaderLeaseTimeout, term: L.R.CurrentTerm()})
+		r.leaseCuts = append(r.leaseCuts, &leaseCut{in: L, t0: w.Now(), lease: L.Conf.LeaderLeaseTimeout, term: L.R.CurrentTerm(), epoch: r.healEpoch.Load()})
 		w.EvLocked(sim.Event{Kind: "cutleader", Srv: L.ID(), S: fmt.Sprint(keys(side))})
 		w.Mu.Unlock()
 		r.feat("cutleader")
@@ -254,6 +255,18 @@ func (r *Runner) execMacro(a Action) {
 		r.reapDead()
 		r.exec(Action{Op: "heal"})
 		r.feat("successor-crashed-before-catching-up-its-voter")
+		// "once faults stop": no message loss, no read faults while the claim is judged
+		w.Mu.Lock()
+		wasLossy := r.lossy
+		r.lossy = false
+		delete(r.flakyReads, A.ID())
+		delete(r.flakyReads, C.ID())
+		w.Mu.Unlock()
+		defer func() {
+			w.Mu.Lock()
+			r.lossy = wasLossy
+			w.Mu.Unlock()
+		}()
 		bound := 30 * r.maxHB()
 		var L2 *sim.Instance
 		for t := time.Duration(0); t < bound && L2 == nil; t += 5 * time.Millisecond {
@@ -477,7 +490,7 @@ func (r *Runner) execMacro(a Action) {
 		}
 		if demoted && L.R.State() == raft.Leader {
 			w.Mu.Lock()
-			r.leaseCuts = append(r.leaseCuts, &leaseCut{in: L, t0: w.Now(), lease: L.Conf.LeaderLeaseTimeout, term: L.R.CurrentTerm()})
+			r.leaseCuts = append(r.leaseCuts, &leaseCut{in: L, t0: w.Now(), lease: L.Conf.LeaderLeaseTimeout, term: L.R.CurrentTerm(), epoch: r.healEpoch.Load()})
 			w.Mu.Unlock()
 			r.feat("cutleader")
 			r.feat("cutleader-keeps-a-peer")
@@ -947,6 +960,7 @@ func (r *Runner) execMacro(a Action) {
 		r.feat("client-call-during-a-slow-leadership-transfer")
 		w.Advance(L.Conf.ElectionTimeout+20*time.Millisecond, r.sample)
 		w.Mu.Lock()
+		r.healEpoch.Add(1)
 		delete(r.cut, [2]string{r.ids[li], r.ids[fi]})
 		delete(r.cut, [2]string{r.ids[fi], r.ids[li]})
 		r.lastFaultMs = w.Now()
@@ -1119,6 +1133,7 @@ func (r *Runner) execMacro(a Action) {
 		w.Mu.Lock()
 		for _, y := range r.ids {
 			if y != idW && y != idA {
+				r.healEpoch.Add(1)
 				delete(r.cut, [2]string{idA, y})
 				delete(r.cut, [2]string{y, idA})
 			}
@@ -1185,6 +1200,7 @@ func (r *Runner) execMacro(a Action) {
 		r.aeBudget = nil
 		for _, y := range r.ids {
 			if y != idW && y != idA {
+				r.healEpoch.Add(1)
 				delete(r.cut, [2]string{idW, y})
 				delete(r.cut, [2]string{y, idW})
 			}
@@ -1305,6 +1321,10 @@ func (r *Runner) sampleProfile() {
 		if lc.in.Dead() || lc.cancelled {
 			continue
 		}
+		if lc.epoch != r.healEpoch.Load() {
+			lc.cancelled = true // links were restored since: the server is not "cut off since t0" any more
+			continue
+		}
 		if lc.steppedAt == 0 && !r.stillCut(lc.in.ID()) {
 			lc.cancelled = true // healed before the bound: nothing to claim
 			continue
@@ -1354,7 +1374,7 @@ func (r *Runner) sampleProfile() {
 					idx, resp = f.Index(), f.Response()
 				}
 				r.finish(op, err, idx, resp)
-				if err == nil && r.stillCut(in.ID()) {
+				if err == nil && r.stillCut(in.ID()) && lc.epoch == r.healEpoch.Load() {
 					w.Violate("C13", "R1", "C13/R1/write-accepted-after-lease-expiry", "%s accepted a write (index %d) after it had lost its majority and its lease had expired", in.ID(), idx)
 				}
 			}()
